@@ -311,7 +311,7 @@ fn gen_cases(ctx: &Ctx) -> Vec<Case> {
 /// through `.equ` symbols (path 1), or the whole line as the body of a macro with the operands as
 /// arguments (path 2). What the ISA cannot encode stays unencodable however it is spelled.
 /// number of expression shapes of respell paths 3..
-const COMPUTED_SHAPES: u8 = 12;
+const COMPUTED_SHAPES: u8 = 14;
 
 fn respell(text: &str, path: u8) -> Option<String> {
     let (mn, rest) = match text.split_once(' ') {
@@ -399,7 +399,11 @@ fn respell(text: &str, path: u8) -> Option<String> {
                     8 => format!("{}-(10-4)", v + 6),
                     9 => format!("{}/(8/4)", v * 2),
                     10 => format!("{}>>(2>>1)", v * 2),
-                    _ => format!("{}-(1+2)", v + 3),
+                    11 => format!("{}-(1+2)", v + 3),
+                    // word selectors that leave the value as it is: a selector is no promise that the value fits a byte
+                    _ if !(0..=0xffff).contains(&v) => return None,
+                    12 => format!("lwrd({})", v),
+                    _ => format!("HWRD({})", v << 16),
                 })
             };
             for o in ops.iter() {
@@ -696,7 +700,7 @@ pub fn run(ctx: &Ctx) -> i32 {
     ctx.exhaustive.store(true, std::sync::atomic::Ordering::Relaxed);
     fw::finish(
         ctx,
-        "per instruction form and legal anchor tuple, one operand at a time leaves its ISA domain: every register r0..r31 in each register position, every number in [lo-300, hi+300] plus ±2^k, ±2^k±1, ±i64::MAX and i64::MIN in each numeric position, operand-kind substitutions, 0..arity-1, arity+1 and arity+2..arity+257 operands, and for every two-operand form the complete cross product every register x every register / boundary value (thorough: two operands out at once, ±70000 windows on 16/22-bit fields); plus a device sweep: every device of the table x every form it has x each operand just outside, just inside and far outside (by 4095..2^32) its field; exhaustive for those windows; every register, cross-product and kind-confusion line (and a quarter of the numeric windows; thorough: all) once more with registers through `.def` aliases and numbers through `.equ` symbols, once more as the body of a macro with the operands as arguments, and with every number written as a computed expression of the same value (12 shapes: complement, sums, negations, parenthesised, right-grouped differences / quotients / shifts; quick: the complement and one other shape, one of them through a macro argument; thorough: all shapes both ways for the register, cross-product and kind-confusion lines); every must-reject line of that subset once more with what makes it unencodable behind a mid-line block comment (`0 /* base */ + 64`, `r1 /* rest */ , r2, r3`: refused one way or the other, never assembled from what stands in front of the comment); seven instructions each used twice with one symbol that is in range at the first use and out of range at the second (the symbol reads pc directly, through one or two other .equ symbols, through one defined later, inside a function; or is a .set assigned again in between): must fail; distinct_nontrivial = distinct must-reject source lines",
+        "per instruction form and legal anchor tuple, one operand at a time leaves its ISA domain: every register r0..r31 in each register position, every number in [lo-300, hi+300] plus ±2^k, ±2^k±1, ±i64::MAX and i64::MIN in each numeric position, operand-kind substitutions, 0..arity-1, arity+1 and arity+2..arity+257 operands, and for every two-operand form the complete cross product every register x every register / boundary value (thorough: two operands out at once, ±70000 windows on 16/22-bit fields); plus a device sweep: every device of the table x every form it has x each operand just outside, just inside and far outside (by 4095..2^32) its field; exhaustive for those windows; every register, cross-product and kind-confusion line (and a quarter of the numeric windows; thorough: all) once more with registers through `.def` aliases and numbers through `.equ` symbols, once more as the body of a macro with the operands as arguments, and with every number written as a computed expression of the same value (14 shapes: complement, sums, negations, parenthesised, right-grouped differences / quotients / shifts, lwrd() / hwrd() of a value they leave unchanged; quick: the complement and one other shape, one of them through a macro argument; thorough: all shapes both ways for the register, cross-product and kind-confusion lines); every must-reject line of that subset once more with what makes it unencodable behind a mid-line block comment (`0 /* base */ + 64`, `r1 /* rest */ , r2, r3`: refused one way or the other, never assembled from what stands in front of the comment); seven instructions each used twice with one symbol that is in range at the first use and out of range at the second (the symbol reads pc directly, through one or two other .equ symbols, through one defined later, inside a function; or is a .set assigned again in between): must fail; distinct_nontrivial = distinct must-reject source lines",
         &[
             "legality = refmodel/isa.rs operand domains (manual transcription)",
             "8-bit immediates written as -128..-1 are accepted as two's complement or rejected (statement silent); ld/st written with a displacement and ldd/std written with increment, decrement or X forms are must-reject (the ISA defines no such form for that mnemonic); `ldd Rd, Y` without displacement is not probed",
